@@ -11,6 +11,8 @@ from harness import probes
 PROP = "C08"
 TARGETS = ["IbicusModel.Props.C08", "IbicusModel.Props.Calendar", "IbicusModel.Props.CalendarAgree", "IbicusModel.Lemmas.GenLoops"]
 GEN = ["Windows", "Loops"]
+TARGETS += ["IbicusModel.Props.Capstone2"]  # capstone 2: C08 stated on the composition of the regenerated pieces (loop spec ∘ per-window program / kernel / ISIMIP wiring); the audit imports it
+GEN += ["Loops", "GridLoops", "DebWin", "Debiasers", "IsimipStep6"]  # the groups the capstone composes (lean_phase regenerates every transitively imported group anyway)
 
 
 def wrap366(x):
